@@ -64,6 +64,8 @@ func nodePartial(n gnode) bool {
 		return true
 	case *nFind:
 		return len(x.list.binds) > 0 || nodePartial(x.found) || nodePartial(x.notfound)
+	case *nLoop, *nLoopNext, *nLoopExit:
+		return true // a loop can run out of fuel
 	}
 	return false
 }
@@ -76,13 +78,31 @@ func withBinds(binds []gbind, inner string, ind string) string {
 	return s
 }
 
-func render(n gnode, partial bool, ind string) string {
+// render modes: the body of a total function, of a partial one (results under Some, None = Go panics or a loop ran
+// out of fuel), and the body of a loop function (results under Some (go_ret ...), see gotrans_loop.go).
+const (
+	mTotal = iota
+	mPartial
+	mLoop
+)
+
+func retText(mode int, s string) string {
+	switch mode {
+	case mPartial:
+		return "Some " + paren(s)
+	case mLoop:
+		return "Some (go_ret " + paren(s) + ")"
+	}
+	return s
+}
+
+func render(n gnode, mode int, ind string) string {
 	switch x := n.(type) {
 	case *nIf:
-		s := fmt.Sprintf("if %s\n%sthen %s\n%selse %s", x.cond.code, ind, render(x.a, partial, ind+"  "), ind, render(x.b, partial, ind+"  "))
+		s := fmt.Sprintf("if %s\n%sthen %s\n%selse %s", x.cond.code, ind, render(x.a, mode, ind+"  "), ind, render(x.b, mode, ind+"  "))
 		return withBinds(x.cond.binds, s, ind)
 	case *nLet:
-		s := fmt.Sprintf("let %s := %s in\n%s%s", x.name, x.val.code, ind, render(x.body, partial, ind))
+		s := fmt.Sprintf("let %s := %s in\n%s%s", x.name, x.val.code, ind, render(x.body, mode, ind))
 		return withBinds(x.val.binds, s, ind)
 	case *nRet:
 		var binds []gbind
@@ -91,27 +111,35 @@ func render(n gnode, partial bool, ind string) string {
 			binds = mergeBinds(binds, v.binds)
 			codes = append(codes, v.code)
 		}
-		s := codes[0]
+		s := "tt"
+		if len(codes) > 0 {
+			s = codes[0]
+		}
 		if len(codes) > 1 {
 			s = "(" + strings.Join(codes, ", ") + ")"
 		}
-		if partial {
-			s = "Some " + paren(s)
-		}
-		return withBinds(binds, s, ind)
+		return withBinds(binds, retText(mode, s), ind)
 	case *nOpt:
-		s := fmt.Sprintf("match %s with\n%s| Some %s => %s\n%s| None => %s\n%send", x.scrut.code, ind, x.binder, render(x.some, partial, ind+"    "), ind, render(x.none, partial, ind+"    "), ind)
+		s := fmt.Sprintf("match %s with\n%s| Some %s => %s\n%s| None => %s\n%send", x.scrut.code, ind, x.binder, render(x.some, mode, ind+"    "), ind, render(x.none, mode, ind+"    "), ind)
 		return withBinds(x.scrut.binds, s, ind)
 	case *nPanic:
 		return "None (* " + strings.ReplaceAll(x.why, "*)", "* )") + " *)"
 	case *nFind:
 		lam := fmt.Sprintf("(fun %s => %s%s)", x.binder, x.pre, x.cond.code)
-		found := render(x.found, partial, ind+"    ")
+		found := render(x.found, mode, ind+"    ")
 		if x.pre != "" {
 			found = x.pre + found
 		}
-		s := fmt.Sprintf("match find %s %s with\n%s| Some %s => %s\n%s| None => %s\n%send", lam, x.list.code, ind, x.binder, found, ind, render(x.notfound, partial, ind+"    "), ind)
+		s := fmt.Sprintf("match find %s %s with\n%s| Some %s => %s\n%s| None => %s\n%send", lam, x.list.code, ind, x.binder, found, ind, render(x.notfound, mode, ind+"    "), ind)
 		return withBinds(x.list.binds, s, ind)
+	case *nLoop:
+		s := fmt.Sprintf("match %s with\n%s| None => None\n%s| Some (go_ret r) => %s\n%s| Some (go_exit %s) => %s\n%send",
+			x.lp.callText(x.init), ind, ind, retText(mode, "r"), ind, x.pat, render(x.after, mode, ind+"    "), ind)
+		return withBinds(x.binds, s, ind)
+	case *nLoopNext:
+		return x.lp.nextText(x.state)
+	case *nLoopExit:
+		return "Some (go_exit " + tupleOf(x.state) + ")"
 	}
 	return "UNRENDERABLE"
 }
@@ -160,6 +188,9 @@ func (tr *gtTr) bindNew(env *venv, goName string, val ex, declare bool, next con
 		}
 	}
 	name := tr.newName(goName)
+	if tr.elemMut && (val.typ.kind == kMap || val.typ.kind == kSlice) && !val.fresh {
+		gtFail("%s would alias a map or slice in a function that assigns elements (outside the subset)", goName)
+	}
 	if declare {
 		if !val.typ.supported() {
 			gtFail("variable %s of type %s is outside the subset", goName, val.typ.name)
@@ -240,6 +271,10 @@ func (tr *gtTr) stmt(s ast.Stmt, env *venv, next cont) gnode {
 			gtFail("return with %d values for %d results (named results are outside the subset)", len(x.Results), len(tr.fn.results))
 		}
 		var vals []ex
+		for _, k := range tr.mutKeys() {
+			n, t := tr.useKey(env, k)
+			vals = append(vals, ex{code: n, typ: t})
+		}
 		for i, r := range x.Results {
 			v := tr.expr(r, env)
 			rt := tr.fn.results[i]
@@ -263,6 +298,18 @@ func (tr *gtTr) stmt(s ast.Stmt, env *venv, next cont) gnode {
 			if why, ok := tr.diverges(c, env); ok {
 				return &nPanic{why: why}
 			}
+			if n, ok := tr.mutCall(c, nil, false, env, next); ok {
+				return n
+			}
+			if pkg, name, ok := tr.libCall(c, env); ok && pkg == "log" && (name == "Println" || name == "Printf" || name == "Print") {
+				// the process log is not part of what is modelled; the arguments must be in the subset and total
+				for _, a := range c.Args {
+					if e := tr.expr(a, env); len(e.binds) > 0 {
+						gtFail("log.%s with an argument that can panic", name)
+					}
+				}
+				return next(env)
+			}
 		}
 		gtFail("expression statement %s (a call with effects) is outside the subset", gtExprText(x.X))
 	case *ast.DeclStmt:
@@ -279,6 +326,17 @@ func (tr *gtTr) stmt(s ast.Stmt, env *venv, next cont) gnode {
 			var dt *gtype
 			if vs.Type != nil {
 				dt = tr.g.resolveType(tr.p, tr.f, vs.Type, 0)
+			}
+			if len(vs.Values) == 1 && dt == nil && len(gd.Specs) == 1 {
+				if c, ok := unparen(vs.Values[0]).(*ast.CallExpr); ok {
+					var ns []string
+					for _, n := range vs.Names {
+						ns = append(ns, n.Name)
+					}
+					if n, ok := tr.mutCall(c, ns, true, env, next); ok {
+						return n
+					}
+				}
 			}
 			if len(vs.Values) != 0 && len(vs.Values) != len(vs.Names) {
 				// var v, ok = m[k]
@@ -315,13 +373,13 @@ func (tr *gtTr) stmt(s ast.Stmt, env *venv, next cont) gnode {
 	case *ast.AssignStmt:
 		return tr.assign(x, env, next)
 	case *ast.IncDecStmt:
-		id, ok := x.X.(*ast.Ident)
-		if !ok {
-			gtFail("++/-- on something that is not a local variable")
-		}
 		op := token.ADD
 		if x.Tok == token.DEC {
 			op = token.SUB
+		}
+		id, ok := x.X.(*ast.Ident)
+		if !ok {
+			return tr.assignState(x.X, tr.expr(&ast.BinaryExpr{X: x.X, Op: op, Y: &ast.BasicLit{Kind: token.INT, Value: "1"}}, env), env, next)
 		}
 		v := tr.expr(&ast.BinaryExpr{X: id, Op: op, Y: &ast.BasicLit{Kind: token.INT, Value: "1"}}, env)
 		return tr.bindNew(env, id.Name, v, false, next)
@@ -366,6 +424,11 @@ func (tr *gtTr) stmt(s ast.Stmt, env *venv, next cont) gnode {
 			env.scopes = env.scopes[:t.depth]
 			return t.k(env)
 		}
+		if x.Tok == token.CONTINUE && x.Label == nil && len(tr.cnt) > 0 {
+			t := tr.cnt[len(tr.cnt)-1]
+			env.scopes = env.scopes[:t.depth]
+			return t.k(env)
+		}
 		gtFail("%s is outside the subset here", x.Tok)
 	}
 	gtFail("statement %T is outside the subset", s)
@@ -404,12 +467,36 @@ func (tr *gtTr) simple(s ast.Stmt, env *venv, next cont) gnode {
 
 func (tr *gtTr) assign(x *ast.AssignStmt, env *venv, next cont) gnode {
 	names := make([]string, len(x.Lhs))
+	allIdents := true
 	for i, l := range x.Lhs {
 		id, ok := l.(*ast.Ident)
 		if !ok {
-			gtFail("assignment to %s (not a local variable) is outside the subset", gtExprText(l))
+			allIdents = false
+			continue
 		}
 		names[i] = id.Name
+	}
+	if !allIdents {
+		// x.f = e, m[k] = e, s[i] = e, x.f op= e: one target
+		if len(x.Lhs) != 1 || len(x.Rhs) != 1 || x.Tok == token.DEFINE {
+			gtFail("assignment to %s among several targets is outside the subset", gtExprText(x.Lhs[0]))
+		}
+		rhs := x.Rhs[0]
+		if x.Tok != token.ASSIGN {
+			op, ok := assignOps[x.Tok]
+			if !ok {
+				gtFail("assignment operator %s is outside the subset", x.Tok)
+			}
+			rhs = &ast.BinaryExpr{X: x.Lhs[0], Op: op, Y: &ast.ParenExpr{X: rhs}}
+		}
+		return tr.assignState(x.Lhs[0], tr.expr(rhs, env), env, next)
+	}
+	if len(x.Rhs) == 1 && (x.Tok == token.DEFINE || x.Tok == token.ASSIGN) {
+		if c, ok := unparen(x.Rhs[0]).(*ast.CallExpr); ok {
+			if n, ok := tr.mutCall(c, names, x.Tok == token.DEFINE, env, next); ok {
+				return n
+			}
+		}
 	}
 	switch x.Tok {
 	case token.DEFINE, token.ASSIGN:
@@ -454,15 +541,17 @@ func (tr *gtTr) assign(x *ast.AssignStmt, env *venv, next cont) gnode {
 		if len(x.Lhs) != 1 || len(x.Rhs) != 1 {
 			gtFail("op= with several operands")
 		}
-		op := map[token.Token]token.Token{token.ADD_ASSIGN: token.ADD, token.SUB_ASSIGN: token.SUB, token.MUL_ASSIGN: token.MUL, token.QUO_ASSIGN: token.QUO,
-			token.REM_ASSIGN: token.REM, token.AND_ASSIGN: token.AND, token.OR_ASSIGN: token.OR, token.XOR_ASSIGN: token.XOR, token.SHL_ASSIGN: token.SHL,
-			token.SHR_ASSIGN: token.SHR, token.AND_NOT_ASSIGN: token.AND_NOT}[x.Tok]
+		op := assignOps[x.Tok]
 		v := tr.expr(&ast.BinaryExpr{X: x.Lhs[0], Op: op, Y: &ast.ParenExpr{X: x.Rhs[0]}}, env)
 		return tr.bindNew(env, names[0], v, false, next)
 	}
 	gtFail("assignment operator %s is outside the subset", x.Tok)
 	return nil
 }
+
+var assignOps = map[token.Token]token.Token{token.ADD_ASSIGN: token.ADD, token.SUB_ASSIGN: token.SUB, token.MUL_ASSIGN: token.MUL, token.QUO_ASSIGN: token.QUO,
+	token.REM_ASSIGN: token.REM, token.AND_ASSIGN: token.AND, token.OR_ASSIGN: token.OR, token.XOR_ASSIGN: token.XOR, token.SHL_ASSIGN: token.SHL,
+	token.SHR_ASSIGN: token.SHR, token.AND_NOT_ASSIGN: token.AND_NOT}
 
 func declaredHere(e *venv, name string) bool {
 	_, ok := e.scopes[len(e.scopes)-1][name]
@@ -751,6 +840,9 @@ func singleIfReturn(b *ast.BlockStmt) (*ast.IfStmt, *ast.ReturnStmt) {
 
 // first-match search:  for _, x := range xs { if cond { return e } }
 func (tr *gtTr) rangeStmt(x *ast.RangeStmt, env *venv, next cont) gnode {
+	if !isFirstMatchRange(x) {
+		return tr.generalRange(x, env, next)
+	}
 	if x.Tok != token.DEFINE || x.Value == nil {
 		gtFail("range loop is not `for _, x := range xs`")
 	}
@@ -774,6 +866,9 @@ func (tr *gtTr) rangeStmt(x *ast.RangeStmt, env *venv, next cont) gnode {
 
 // for i := 0; i < len(s); i++ { if cond(s[i]) { return e } }
 func (tr *gtTr) forStmt(x *ast.ForStmt, env *venv, next cont) gnode {
+	if !isFirstMatchFor(x) {
+		return tr.generalFor(x, env, next)
+	}
 	bad := func() { gtFail("for loop is not `for i := 0; i < len(s); i++ { if cond { return ... } }`") }
 	as, ok := x.Init.(*ast.AssignStmt)
 	if !ok || as.Tok != token.DEFINE || len(as.Lhs) != 1 || len(as.Rhs) != 1 {
@@ -853,6 +948,7 @@ type gtParam struct {
 	coq    string
 	typ    *gtype
 	fields []string // struct parameter: the field paths read ("f", "f.g"), in binder order
+	ptr    bool     // passed by pointer
 }
 
 type gtAbstract struct{ name, typ string }
@@ -865,6 +961,7 @@ type gtFn struct {
 	abstract bool
 	params   []gtParam // the Go parameters (receiver first), in order
 	results  []*gtype
+	muts     []gtMut // what the function changes of its receiver / arguments: returned before the results
 	partial  bool
 	// implicit parameters
 	usesV       bool
@@ -933,13 +1030,15 @@ func (fn *gtFn) implicitArgs() []string {
 }
 
 type gtCfg struct {
-	valueOf   string      // fragment: the value of this local variable, from its top-level declaration (inclusive) ...
-	untilDecl string      // ... up to the top-level declaration of this one (exclusive), over fragVars
-	initOf    string      // fragment: translate only the initialiser of the (unique) declaration of this local variable
-	abstract  []string    // callees that stay parameters
-	afterDecl string      // fragment: translate only the statements after the declaration of this variable ...
-	fragVars  [][2]string // ... with these (name, Go type) as additional parameters
-	suffix    string      // ... under the name src_<pkg>_<name>_<suffix>
+	valueOf   string         // fragment: the value of this local variable, from its top-level declaration (inclusive) ...
+	untilDecl string         // ... up to the top-level declaration of this one (exclusive), over fragVars
+	initOf    string         // fragment: translate only the initialiser of the (unique) declaration of this local variable
+	abstract  []string       // callees that stay parameters
+	afterDecl string         // fragment: translate only the statements after the declaration of this variable ...
+	fragVars  [][2]string    // ... with these (name, Go type) as additional parameters
+	suffix    string         // ... under the name src_<pkg>_<name>_<suffix>
+	fuel      map[int]string // loop number (source order, from 1) -> Go expression over what is in scope at the loop: iterations + 1 at most
+	argsOf    string         // fragment: the list of the first arguments of every call of a method of this name, in source order
 }
 
 type gtState struct {
@@ -949,6 +1048,7 @@ type gtState struct {
 	tables       map[string]*gtype // emitted package-level map literals: coq name -> type
 	pending      []string          // texts to emit, in dependency order
 	family       string
+	loopTexts    map[string]string // emitted loop functions, by name
 }
 
 var gtStates = map[*gen]*gtState{}
@@ -956,7 +1056,7 @@ var gtStates = map[*gen]*gtState{}
 func (g *gen) gtState() *gtState {
 	st := gtStates[g]
 	if st == nil {
-		st = &gtState{fns: map[string]*gtFn{}, cfgs: map[string]*gtCfg{}, tables: map[string]*gtype{}, placeholders: map[string]bool{}}
+		st = &gtState{fns: map[string]*gtFn{}, cfgs: map[string]*gtCfg{}, tables: map[string]*gtype{}, placeholders: map[string]bool{}, loopTexts: map[string]string{}}
 		gtStates[g] = st
 	}
 	return st
@@ -1030,19 +1130,28 @@ func (st *gtState) translateFn(g *gen, dir, key string, fn *gtFn) {
 		cfg = &gtCfg{}
 	}
 	f := p.funcIn[key]
-	tr := &gtTr{g: g, st: st, p: p, f: f, fn: fn, names: map[string]int{}, abstract: map[string]bool{}, usedFields: map[string]map[string]bool{}, usedVars: map[string]bool{}, fieldNames: map[string]bool{}}
+	tr := &gtTr{g: g, st: st, p: p, f: f, fn: fn, names: map[string]int{}, abstract: map[string]bool{}, usedFields: map[string]map[string]bool{}, usedVars: map[string]bool{}, fieldNames: map[string]bool{},
+		cfg: cfg, loopIndex: map[ast.Node]int{}}
 	for _, a := range cfg.abstract {
 		tr.abstract[a] = true
 	}
+	ast.Inspect(fd.Body, func(n ast.Node) bool {
+		switch n.(type) {
+		case *ast.ForStmt, *ast.RangeStmt:
+			tr.loopIndex[n] = len(tr.loopIndex) + 1
+		}
+		return true
+	})
 	fn.coqName = coqFnName(p, key, cfg.suffix)
 	env := (&venv{}).push()
+	ptrNext := false
 	addParam := func(name string, t *gtype) {
 		if name == "" || name == "_" {
 			name = fmt.Sprintf("unused%d", len(fn.params))
 		}
 		coq := tr.newName(name)
-		fn.params = append(fn.params, gtParam{goName: name, coq: coq, typ: t})
-		v := &gvar{goName: name, typ: t, coq: coq}
+		fn.params = append(fn.params, gtParam{goName: name, coq: coq, typ: t, ptr: ptrNext})
+		v := &gvar{goName: name, typ: t, coq: coq, ptr: ptrNext}
 		if t.kind == kStruct {
 			v.coq = "v_" + name
 		}
@@ -1054,12 +1163,15 @@ func (st *gtState) translateFn(g *gen, dir, key string, fn *gtFn) {
 		if len(fd.Recv.List[0].Names) == 1 {
 			name = fd.Recv.List[0].Names[0].Name
 		}
+		_, ptrNext = fd.Recv.List[0].Type.(*ast.StarExpr)
 		addParam(name, g.resolveType(p, f, fd.Recv.List[0].Type, 0))
+		ptrNext = false
 		sig = append(sig, "("+name+" "+typeText(fd.Recv.List[0].Type)+")")
 	}
 	var ps []string
 	for _, fl := range fd.Type.Params.List {
 		t := g.resolveType(p, f, fl.Type, 0)
+		_, ptrNext = fl.Type.(*ast.StarExpr)
 		if len(fl.Names) == 0 {
 			addParam("", t)
 			ps = append(ps, typeText(fl.Type))
@@ -1068,19 +1180,24 @@ func (st *gtState) translateFn(g *gen, dir, key string, fn *gtFn) {
 			addParam(n.Name, t)
 			ps = append(ps, n.Name+" "+typeText(fl.Type))
 		}
+		ptrNext = false
 	}
 	var rs []string
 	if fd.Type.Results != nil && cfg.valueOf == "" && cfg.initOf == "" {
 		for _, fl := range fd.Type.Results.List {
-			if len(fl.Names) > 0 {
-				gtFail("named results are outside the subset")
+			for _, n := range fl.Names {
+				if mentions(fd.Body, n.Name) {
+					gtFail("named result %s is used in the body (outside the subset)", n.Name)
+				}
 			}
 			t := g.resolveType(p, f, fl.Type, 0)
 			if !t.supported() {
 				gtFail("result type %s is outside the subset", t.name)
 			}
-			fn.results = append(fn.results, t)
-			rs = append(rs, typeText(fl.Type))
+			for i := 0; i < len(fl.Names) || i == 0; i++ {
+				fn.results = append(fn.results, t)
+				rs = append(rs, typeText(fl.Type))
+			}
 		}
 	}
 	body := fd.Body.List
@@ -1154,8 +1271,39 @@ func (st *gtState) translateFn(g *gen, dir, key string, fn *gtFn) {
 		sig = append(sig, "[the initialiser of "+cfg.initOf+"]")
 		fragInit = true
 	}
-	if len(fn.results) == 0 && !fragInit && !fragValue {
-		gtFail("no result (a function with effects only)")
+	// what the function changes of its receiver and arguments
+	{
+		keys, elems, whole := tr.assignedIn([]ast.Node{fd.Body}, env)
+		for pi, prm := range fn.params {
+			if prm.typ.kind == kStruct {
+				for _, fl := range prm.typ.fields {
+					if keys[stKey{prm.goName, fl.name}] {
+						if !prm.ptr {
+							gtFail("assignment to field %s of %s, which is passed by value", fl.name, prm.goName)
+						}
+						if !fl.typ.supported() {
+							gtFail("assignment to field %s.%s of type %s", prm.goName, fl.name, fl.typ.name)
+						}
+						fn.muts = append(fn.muts, gtMut{pi, fl.name, fl.typ})
+					}
+				}
+				continue
+			}
+			k := stKey{prm.goName, ""}
+			if elems[k] {
+				if whole[k] {
+					gtFail("%s is both reassigned and has its elements assigned (aliasing is outside the subset)", prm.goName)
+				}
+				fn.muts = append(fn.muts, gtMut{pi, "", prm.typ})
+			}
+		}
+		tr.elemMut = len(elems) > 0
+		if len(fn.muts) > 0 && (fragInit || fragValue || cfg.afterDecl != "") {
+			gtFail("fragment of a function that changes its receiver or arguments")
+		}
+	}
+	if len(fn.results) == 0 && len(fn.muts) == 0 && !fragInit && !fragValue {
+		gtFail("no result and no change of the receiver or an argument (a function with other effects only)")
 	}
 	fn.sig = strings.TrimSpace(strings.Join(sig, " ") + " " + fd.Name.Name + "(" + strings.Join(ps, ", ") + ") " + strings.Join(rs, ", "))
 	var node gnode
@@ -1190,7 +1338,10 @@ func (st *gtState) translateFn(g *gen, dir, key string, fn *gtFn) {
 			gtFail("fragment: the end is never reached")
 		}
 	} else {
-		node = tr.block(body, env, func(*venv) gnode {
+		node = tr.block(body, env, func(e *venv) gnode {
+			if len(fn.results) == 0 && len(fn.muts) > 0 {
+				return tr.stmt(&ast.ReturnStmt{}, e, nil)
+			}
 			gtFail("control can reach the end of the function without a return")
 			return nil
 		})
@@ -1237,6 +1388,12 @@ func (st *gtState) translateFn(g *gen, dir, key string, fn *gtFn) {
 	}
 	binders = append(fn.implicitBinders(), binders...)
 	var rts []string
+	for _, m := range fn.muts {
+		rts = append(rts, paren(m.typ.coq()))
+		if m.typ.usesValue() {
+			fn.usesV = true
+		}
+	}
 	for _, r := range fn.results {
 		rts = append(rts, paren(r.coq()))
 	}
@@ -1250,8 +1407,29 @@ func (st *gtState) translateFn(g *gen, dir, key string, fn *gtFn) {
 	if bs != "" {
 		bs = " " + bs
 	}
-	fmt.Fprintf(&sb, "Definition %s%s : %s :=\n  %s.\n", fn.coqName, bs, rt, render(node, fn.partial, "  "))
+	fmt.Fprintf(&sb, "Definition %s%s : %s :=\n  %s.\n", fn.coqName, bs, rt, render(node, boolInt(fn.partial), "  "))
 	fn.text = sb.String()
+}
+
+// mutKeys: the function's changed state, as state of its own environment.
+func (tr *gtTr) mutKeys() []stKey {
+	var out []stKey
+	for _, m := range tr.fn.muts {
+		out = append(out, stKey{tr.fn.params[m.prm].goName, m.f})
+	}
+	return out
+}
+
+// mentions: does the identifier occur anywhere in n?
+func mentions(n ast.Node, name string) bool {
+	found := false
+	ast.Inspect(n, func(n ast.Node) bool {
+		if id, ok := n.(*ast.Ident); ok && id.Name == name {
+			found = true
+		}
+		return true
+	})
+	return found
 }
 
 func boolInt(b bool) int {
@@ -1575,3 +1753,66 @@ func familyDirs(items []gtItem) string {
 }
 
 var _ = constant.MakeInt64
+
+// the two first-match idioms keep their translation through List.find (the lemmas about them rest on it)
+func isIfReturnBody(b *ast.BlockStmt) bool {
+	if len(b.List) != 1 {
+		return false
+	}
+	ifs, ok := b.List[0].(*ast.IfStmt)
+	if !ok || ifs.Init != nil || ifs.Else != nil || len(ifs.Body.List) != 1 {
+		return false
+	}
+	_, ok = ifs.Body.List[0].(*ast.ReturnStmt)
+	return ok
+}
+
+func isFirstMatchRange(x *ast.RangeStmt) bool {
+	k, ok := x.Key.(*ast.Ident)
+	return ok && k.Name == "_" && x.Tok == token.DEFINE && x.Value != nil && isIfReturnBody(x.Body)
+}
+
+func isFirstMatchFor(x *ast.ForStmt) bool {
+	as, ok := x.Init.(*ast.AssignStmt)
+	if !ok || as.Tok != token.DEFINE || len(as.Lhs) != 1 || len(as.Rhs) != 1 || !isIfReturnBody(x.Body) {
+		return false
+	}
+	iv, ok := as.Lhs[0].(*ast.Ident)
+	if z, isInt := intLit(as.Rhs[0]); !ok || !isInt || z != 0 {
+		return false
+	}
+	cond, ok := x.Cond.(*ast.BinaryExpr)
+	if !ok || cond.Op != token.LSS || !isIdent(cond.X, iv.Name) {
+		return false
+	}
+	lc, ok := cond.Y.(*ast.CallExpr)
+	if !ok || !isIdent(lc.Fun, "len") || len(lc.Args) != 1 {
+		return false
+	}
+	if _, ok := unparen(lc.Args[0]).(*ast.Ident); !ok {
+		return false
+	}
+	inc, ok := x.Post.(*ast.IncDecStmt)
+	if !ok || inc.Tok != token.INC || !isIdent(inc.X, iv.Name) {
+		return false
+	}
+	// the loop variable may be used only as s[i]: otherwise it is a general loop
+	sname := unparen(lc.Args[0]).(*ast.Ident).Name
+	okUse := true
+	var parents []ast.Node
+	ast.Inspect(x.Body, func(n ast.Node) bool {
+		if n == nil {
+			parents = parents[:len(parents)-1]
+			return true
+		}
+		if id, ok := n.(*ast.Ident); ok && id.Name == iv.Name {
+			ix, isIx := parents[len(parents)-1].(*ast.IndexExpr)
+			if !isIx || !isIdent(unparen(ix.X), sname) || unparen(ix.Index) != ast.Expr(id) {
+				okUse = false
+			}
+		}
+		parents = append(parents, n)
+		return true
+	})
+	return okUse
+}
